@@ -41,3 +41,13 @@ CHECKS["C10"] = dict(level=MC, engine="E2", design_ref="DESIGN.md section 3 C10"
    technique="complete enumeration of the shipped tables: BFS over the element graph, structural grammar, least-fixpoint satisfiability with DFA-generated witnesses validated by the real validate.tree",
    text="The space is finite (224 names, 107 rules) and enumerated completely: every mapping, every rule's structure, every child name of every reachable rule, and a witness tree per element / per permitted child / per useful DFA transition that the real whole-tree validator must accept.",
    note="Witness generation relies on my DFA of each rule (cross-checked by C01); three permitted-but-unknown child names are recorded as open known findings F9a-c.")
+
+CHECKS["C02"] = dict(level=EX, engine="E4", design_ref="DESIGN.md section 3 C02",
+   technique="exhaustive bounded string enumeration per content kind against hand-written three-valued recognisers, both validation modes",
+   text="For every rule every string up to length n over a kind-specific alphabet (numeric kinds 17 symbols, time 13, date 7) plus complete boundary/template products (range ends, rounding sliver, NaN/inf, leap years, zone offsets, URI scheme x host x port x path) and None is validated in both modes and compared with independent recognisers that use none of the Python parsers.",
+   note="Alphabets and lengths bound the space; the recognisers' lenient envelopes are checked at run time to contain whatever float()/int() accept so that 'must-reject' never over-demands; unspecified zones listed in DESIGN.md.")
+
+CHECKS["C03"] = dict(level=EX, engine="E3", design_ref="DESIGN.md section 3 C03",
+   technique="full Cartesian product of attribute assignments per rule over the abstraction {absent, each listed value, unlisted value} x foreign attribute x insertion orders",
+   text="The abstraction named in the property's quantifier is finite and is enumerated completely for all rules, including all insertion orders for small assignments, in both modes; collecting-mode errors are compared as a multiset of (code, attribute) with an independent reading of the table; introspection queries are compared with the same table.",
+   note="Attribute values are strings; content and children are kept valid so any error is an attribute error.")
